@@ -97,6 +97,40 @@ def finish(prop, tier, seed, results, reg, table, wall, timeout_ms):
             lines.append("VIOLATION property=%s replay=%s no-failing-input-found" % (prop, rel))
         violations.append({"unit": o["unit"], "obligation": o["name"], "replay": rel,
                            "reproduced_natively": bool(native.get("reproduced"))})
+    # ---- obligations that were proved on the unchanged tree (committed baseline) and are now
+    #      left open by the solvers: a bounded native search (the function's replayer) decides
+    #      whether this is a violation; without a natively confirmed failing input it stays
+    #      UNDECIDED (a failed proof alone is never reported as a violation)
+    baseline = load_baseline(prop)
+    still_unknown = []
+    for r, o in obls:
+        if o["status"] != "unknown":
+            continue
+        key = "%s||%s" % (o["unit"], o["name"])
+        fn_changed = baseline.get("functions", {}).get(r.get("unit")) not in (None, r.get("sha256"))
+        if key in baseline.get("proved", []) and fn_changed:
+            rec = {"property": prop, "unit": o["unit"], "obligation": o["name"], "kind": o["kind"],
+                   "function": r.get("qual"), "receiver_class": r.get("cls"), "file": r.get("file"),
+                   "line": r.get("line"), "segment_sha256": r.get("sha256"),
+                   "verdict": "obligation proved on the unchanged tree (baseline) is no longer discharged: %s" % o.get("reason"),
+                   "solver_model": None, "detail": {"solver_reason": o.get("reason")},
+                   "contract": contract_text(reg, r.get("qual")), "tier": tier}
+            os.makedirs(rdir, exist_ok=True)
+            path = os.path.join(rdir, slug(o["unit"] + "__" + o["name"]) + ".json")
+            with open(path, "w") as fh:
+                json.dump(rec, fh, indent=1, default=str)
+            native = replay_mod.try_native(path)
+            rec["native_replay"] = native
+            with open(path, "w") as fh:
+                json.dump(rec, fh, indent=1, default=str)
+            if native.get("reproduced"):
+                rel = os.path.relpath(path, VERIF)
+                lines.append("VIOLATION property=%s replay=%s" % (prop, rel))
+                violations.append({"unit": o["unit"], "obligation": o["name"], "replay": rel,
+                                   "reproduced_natively": True, "solver": "unknown (native search found the input)"})
+                continue
+        still_unknown.append(o)
+    unknown = still_unknown
     scan = []
     try:
         from pyvc.run import scan_assumptions
@@ -191,6 +225,28 @@ def finish(prop, tier, seed, results, reg, table, wall, timeout_ms):
     if n_total == 0:
         print("CHECKER-ERROR zero obligations generated for %s" % prop)
     return status
+
+
+def load_baseline(prop):
+    p = os.path.join(VERIF, "baseline", prop + ".json")
+    if not os.path.exists(p):
+        return {}
+    try:
+        return json.load(open(p))
+    except Exception:
+        return {}
+
+
+def record_baseline(prop, results):
+    proved, funcs = [], {}
+    for r in results:
+        funcs[r["unit"]] = r.get("sha256")
+        for o in r["obligations"]:
+            if o["status"] == "proved":
+                proved.append("%s||%s" % (r["unit"], o["name"]))
+    os.makedirs(os.path.join(VERIF, "baseline"), exist_ok=True)
+    with open(os.path.join(VERIF, "baseline", prop + ".json"), "w") as fh:
+        json.dump({"property": prop, "proved": sorted(proved), "functions": funcs}, fh, indent=0)
 
 
 def contract_text(reg, qual):
